@@ -25,7 +25,7 @@ from ..objectmodel.builder import (
 from ..util import hasha
 
 
-__compiled_grammar_cache: dict[tuple[str | None, str, int], g.Grammar] = {}
+__compiled_grammar_cache: dict[tuple, g.Grammar] = {}
 
 
 def boot_grammar() -> g.Grammar:
@@ -62,20 +62,29 @@ def compile(
         )
     cache = __compiled_grammar_cache
 
-    key = (name, hasha(grammar), id(semantics))
-    if key in cache:
-        model = cache[key]
-    else:
-        gen = TatSuParserGenerator(name, **settings)
-        model = cache[key] = gen.parse(grammar, **settings)
-
-    asmodel = not semantics and (
-        asmodel
-        or isinstance(builderconfig, BuilderConfig)
+    custom_builder = (
+        isinstance(builderconfig, BuilderConfig)
         or basetype is not None
         or typedefs is not None
         or constructors is not None
+        or not synthok
     )
+    asmodel = not semantics and (asmodel or custom_builder)
+
+    # NOTE the semantics are stored in the model, so models that build object
+    #   models cannot share a cache entry with those that do not, and a model
+    #   with caller-provided builder options is not shared at all; the settings
+    #   take part in parsing the grammar, so they are part of the key
+    settings_key = tuple(sorted((k, repr(v)) for k, v in settings.items()))
+    key = (name, hasha(grammar), id(semantics), asmodel, settings_key)
+    if key in cache and not (asmodel and custom_builder):
+        model = cache[key]
+    else:
+        gen = TatSuParserGenerator(name, **settings)
+        model = gen.parse(grammar, **settings)
+        if not (asmodel and custom_builder):
+            cache[key] = model
+
     if semantics is not None:
         model.semantics = semantics
     elif asmodel:
